@@ -14,10 +14,11 @@ import (
 //   taken at the savepoint and drops the later savepoints; the affected-row count is the number
 //   of row changes applied and first/last inserted keys are those of the rows inserted.
 //
-// The same interpreter runs a second time with the three deviations the faithful Coq model has
-// (`faithful = true`): per-table snapshots taken at first access, ROLLBACK TO SAVEPOINT restoring
-// only the counters and removing only the named savepoint, and the duplicate-key test of INSERT not
-// seeing the transaction's own DELETE.  A difference between the engine and the obvious spec is a
+// The same interpreter runs a second time with the two deviations the faithful Coq model has
+// (`faithful = true`): per-table snapshots taken at first access, and ROLLBACK TO SAVEPOINT restoring
+// only the counters and removing only the named savepoint.  (A third one, the duplicate-key test
+// of INSERT not seeing the transaction's own DELETE, was fixed in /repo by 62a15b5: a recurrence
+// differs from both references and is reported with cause=unknown.)  A difference between the engine and the obvious spec is a
 // finding; it is attributed to a deviation only when the deviating reference agrees with the
 // engine on the whole program so far AND the transaction actually exercised that deviation.
 // Everything else is reported with cause=unknown.
@@ -102,7 +103,6 @@ type vtx struct {
 const (
 	causeRbTo = "cause=rollback-to-savepoint-keeps-writes"
 	causeLazy = "cause=per-table-lazy-snapshot"
-	causeGet  = "cause=insert-ignores-own-delete"
 )
 
 func maxKey(t otable) (int64, bool) {
@@ -169,15 +169,6 @@ func (x *vtx) counters() *Counters {
 	return &c
 }
 
-func (x *vtx) ownWritten(t int, pk int64) bool {
-	for _, w := range x.applied {
-		if w.t == t && w.pk == pk {
-			return true
-		}
-	}
-	return false
-}
-
 func (x *vtx) write(db [3]otable, w went) bool {
 	if x.ro {
 		return false
@@ -208,12 +199,6 @@ func (x *vtx) putRow(db [3]otable, isIns bool, t int, pk, v int64) bool {
 	c, present := x.work[t][pk]
 	live := present && !c.del
 	found := live
-	if x.faithful && x.ownWritten(t, pk) {
-		found = true
-		if !live && (isIns || must) {
-			x.taints[causeGet] = true
-		}
-	}
 	if !found && must {
 		return false
 	}
@@ -246,12 +231,6 @@ func (x *vtx) dml(db [3]otable, op Op) bool {
 		x.touch(db, t)
 		c, present := x.work[t][pk]
 		live := present && !c.del
-		if x.faithful && x.ownWritten(t, pk) {
-			if !live {
-				x.taints[causeGet] = true
-			}
-			live = true
-		}
 		if live {
 			return false
 		}
@@ -575,7 +554,7 @@ func checkProgram(steps []Step, obs []Obs) oracleResult {
 			eo = evalStep(db, otx[s], st.Op, false, got.Err)
 			if d := diffObs(&eo, db, got); d != "" {
 				taints := []string{}
-				for _, c := range []string{causeRbTo, causeLazy, causeGet} {
+				for _, c := range []string{causeRbTo, causeLazy} {
 					if ef.taints[c] {
 						taints = append(taints, c)
 					}
